@@ -44,15 +44,17 @@ def mc_configs(tier):
     out = [
         ('core4', cfg({'none', 'box', 'list', 'tuple'}, 4, 4 if q else 5), 1),
         ('cont3', cfg(CORE_LEAVES | ALL_CONT, 3, 3 if q else 4), 1 if q else 1),
-        ('leaf3', cfg({'none', 'int', 'box', 'arr', 'dtype', 'glob', 'range', 'list', 'tuple', 'set', 'gdict'}, 3 if q else 4, 3 if q else 4,
+        ('leaf3', cfg({'none', 'int', 'box', 'arr', 'dtype', 'glob', 'range', 'list', 'tuple', 'set', 'gdict'}, 3, 3 if q else 4,
                       globs=(0, 1)), 1),
-        ('reduce', cfg({'reduce', 'glob', 'tuple', 'sdict', 'box'}, 5 if q else 6, 5 if q else 6, roots={'reduce'}), 1),
-        ('reduce-patched', cfg({'reduce', 'glob', 'tuple', 'sdict', 'box'}, 5 if q else 6, 5 if q else 6, roots={'reduce'},
+        # C17_ASSUME_PATCHED=1: predictions of the patched save_reduce (to try the proposed patch in a scratch tree)
+        ('reduce', cfg({'reduce', 'glob', 'tuple', 'sdict', 'box'}, 5 if q else 6, 5 if q else 6, roots={'reduce'},
+                       fixed=bool(os.environ.get('C17_ASSUME_PATCHED')),
+                       rvars=(1, 2, 3) if os.environ.get('C17_ASSUME_PATCHED') else (1, 2, 3, 4)), 1),
+        ('reduce-patched', cfg({'reduce', 'glob', 'tuple', 'sdict', 'box'}, 5, 5, roots={'reduce'},
                                fixed=True, emit=False, rvars=(1, 2, 3)), 0),
     ]
     if not q:
         out.append(('core5', cfg({'box', 'list', 'tuple'}, 5, 5), 1))
-        out.append(('cycle5', cfg({'list', 'tuple', 'inst'}, 5, 6, nkeys=1), 1))
     return out
 
 
@@ -137,7 +139,7 @@ def expected_type_fn(g, objs):
     return f
 
 
-def replay_graph(ctx, rec, scratch, idx, origin, style=None, corrupt=False, table=None):
+def replay_graph(ctx, rec, scratch, idx, origin, style=None, corrupt=False, table=None, force=None):
     """returns True if the real code behaved as the spec predicts"""
     import h5py
     from tenpy.tools import hdf5_io
@@ -146,6 +148,8 @@ def replay_graph(ctx, rec, scratch, idx, origin, style=None, corrupt=False, tabl
     if style is None:
         style = og.BOX_STYLES[(idx + ctx.seed) % len(og.BOX_STYLES)]
     same = (not hasset) and ((idx // 3 + ctx.seed) % 4 == 0)
+    if force:
+        style, same = force['style'], force['same']
     try:
         objs = og.build(g, style, same)
     except og.NotConstructible as e:
@@ -165,9 +169,11 @@ def replay_graph(ctx, rec, scratch, idx, origin, style=None, corrupt=False, tabl
     fo, lk, h = rec['fo'], [list(x) for x in rec['lk']], rec['h']
     feature = graph_feature(g, objs)
     base = 'x' if (g[0]['k'] in ('none', 'int', 'box', 'arr', 'glob') or (idx + ctx.seed) % 2) else '/'
+    if force:
+        base = force['base']
     detail = dict(origin=origin, g=tlaval.to_jsonable(g), style=style, same=same, base=base,
                   spec=dict(fo=tlaval.to_jsonable(fo), lk=tlaval.to_jsonable(lk), h=tlaval.to_jsonable(h), hroot=rec['hroot'],
-                            err=rec['err'], ok=rec['ok'], tback=rec['tback']))
+                            err=rec['err'], ok=rec['ok'], tback=rec['tback'], hist=tlaval.to_jsonable(rec['hist'])))
     key = json.dumps([detail['g'], style, same, base], sort_keys=True)
 
     def sig(clause, medium='hdf5'):
@@ -277,7 +283,8 @@ def graph_layer(ctx):
     scratch = Scratch()
     stats = {}
     quick = ctx.tier == 'quick'
-    share_q = {'core4': 2, 'cont3': 3}      # quick tier: replay every k-th graph of the big enumerations (seeded)
+    # replay every k-th graph of the big enumerations (seeded)
+    share_q = {'core4': 2, 'cont3': 3} if quick else {'cont3': 2}
     try:
         idx = 0
         cfgs = [(name, c, share) for name, c, share in mc_configs(ctx.tier)
@@ -301,7 +308,7 @@ def graph_layer(ctx):
                     table = {}
                     for r in recs:
                         table.setdefault(og.graph_key(r['g']), r)
-                    k = share_q.get(name, 1) if quick else 1
+                    k = share_q.get(name, 1)
                     for key, rec in table.items():
                         idx += 1
                         n += 1
@@ -428,6 +435,30 @@ def canary(ctx):
         raise core.MachineryError('canary: %d of %d corrupted predictions were accepted' % (len(recs) - c.rejected, len(recs)))
 
 
+def replay_file(ctx, path):
+    """./check C17 --replay evidence/replays/C17-....json : re-execute exactly that case"""
+    with open(path) as f:
+        d = json.load(f)
+    det = d['detail']
+    ctx.seed = d.get('seed', ctx.seed)
+    if 'g' in det and 'spec' in det:
+        sp = det['spec']
+        rec = dict(g=det['g'], fo=sp['fo'], lk=sp['lk'], h=sp['h'], hroot=sp['hroot'], err=sp['err'], ok=sp['ok'], tback=sp['tback'],
+                   hist=sp.get('hist', []))
+        scratch = Scratch()
+        try:
+            r = replay_graph(ctx, rec, scratch, 0, det.get('origin', 'replay'), force=dict(style=det['style'], same=det['same'], base=det['base']))
+        finally:
+            scratch.close()
+        print('replayed graph case: %s' % ('as predicted' if r else 'DIVERGES'))
+    elif 'label' in det:
+        class_layer(ctx, only_label=det['label'])
+    elif d['signature'].get('kind') == 'probe':
+        probe_layer(ctx)
+    else:
+        raise core.MachineryError('cannot replay %s (MC counterexample: rerun the tier)' % path)
+
+
 def check(ctx):
     ctx.rule = ('a case = one TLC-enumerated object graph (x leaf style x path) saved and loaded through the real '
                 'Hdf5Saver/Hdf5Loader and pickle, compared with the spec (call sequence, file, loaded graph); '
@@ -435,6 +466,8 @@ def check(ctx):
     ctx.assume('TLC', 'harness/objgraph.py (builder, matcher, file projection)', 'the specification module Hdf5',
                'h5py object identity (ObjectID equality) as the notion of "same HDF5 object"')
     ctx.exhaustive = True
+    if ctx.replay_file:
+        return replay_file(ctx, ctx.replay_file)
     if not ctx.only or ctx.only - {'class', 'probe', 'canary'}:
         graph_layer(ctx)
     if not ctx.only or 'class' in ctx.only:
@@ -822,7 +855,7 @@ def normalise_reason(why):
     return w[:100]
 
 
-def class_layer(ctx):
+def class_layer(ctx, only_label=None):
     import h5py
     from tenpy.tools import hdf5_io
     classes, import_failed = discover_classes()
@@ -832,6 +865,8 @@ def class_layer(ctx):
     results = {}
     try:
         for label, obj in insts:
+            if only_label and label != only_label:
+                continue
             cls_here = classes_in(obj)
             for c in cls_here:
                 covered.setdefault(c, []).append(label)
